@@ -26,7 +26,7 @@ ASSUMPTIONS = [
     "numpy ufuncs, np.where and arithmetic operators are elementwise; numeric equality of the two modes is not decided",
     "values typed float (term parameters, ranges, thresholds) are single numbers",
 ]
-FLOORS = {"V1": 90, "V2": 1, "V3": 5, "V4": 2, "V6": 40}
+FLOORS = {"V1": 90, "V2": 1, "V3": 5, "V4": 2, "V5": 2, "V6": 40}
 
 SCALAR_ATTRS = {"value", "_value", "degree", "_degree", "activation_degree", "triggered"}
 SAFE_ATTRS = {"size", "ndim", "shape", "dtype", "name", "__name__", "enabled", "height", "lock_range", "lock_previous"}
@@ -272,6 +272,61 @@ def kernel_elementwise(check: Check, fn: FunctionInfo, rule: str, construct: str
     return bad
 
 
+REDUCERS = {"any", "all", "sum", "max", "min", "mean", "prod", "nansum", "nanmax", "nanmin", "count_nonzero", "amax", "amin"}
+
+
+def _whole_batch_reductions(ta: Taint, t: Term) -> list[Term]:
+    """Sub-terms that reduce a batch value over all of its rows (no axis, or axis 0)."""
+    out = []
+    for s_ in walk(t):
+        if s_[0] != "call":
+            continue
+        f_ = s_[1]
+        arg = None
+        if f_[0] == "attr" and f_[2] in REDUCERS:
+            arg = f_[1]
+        elif f_[0] == "global" and f_[1].startswith("numpy.") and f_[1].split(".")[-1] in REDUCERS and s_[2]:
+            arg = s_[2][0]
+        elif f_[0] == "global" and f_[1] in ("any", "all", "sum", "max", "min") and len(s_[2]) == 1:
+            arg = s_[2][0]
+        if arg is None or not ta.tainted(arg):
+            continue
+        axis = dict(s_[3]).get("axis", s_[2][1] if f_[0] == "global" and len(s_[2]) > 1 else (s_[2][0] if f_[0] == "attr" and s_[2] else None))
+        if axis is not None and axis != ("const", 0) and axis != ("const", None):
+            continue  # a per-row reduction
+        out.append((s_, arg))
+    return out
+
+
+def cross_row_decisions(check: Check, fn: FunctionInfo, rule: str, construct: str) -> int:
+    """V5: no branch is decided once for the whole batch by reducing a batch value over its rows, unless all the branch
+    does is a masked store through the very mask that was reduced (`if m.any(): v[m] = ...` is a no-op for the other rows)."""
+    ta = Taint(check.program, fn)
+    bad = 0
+    seen = set()
+    for n, e, what in ta.sinks():
+        if what not in ("condition", "condition of a conditional expression") and not what.startswith("operand of"):
+            continue
+        t = ta.r.term(e, n)
+        for red, arg in _whole_batch_reductions(ta, t):
+            owner = next((x for x in ast.walk(fn.analysis_node) if isinstance(x, ast.If) and x.test is n.ast), None) if n.kind == "test" else None
+            if owner is not None and not owner.orelse and all(
+                isinstance(b, (ast.Assign, ast.AugAssign)) and all(
+                    isinstance(tg, ast.Subscript) and ta.r.term(tg.slice, n) == arg for tg in (b.targets if isinstance(b, ast.Assign) else [b.target]))
+                    for b in owner.body):
+                continue
+            key = (n.lineno, show(red))
+            if key in seen:
+                continue
+            seen.add(key)
+            bad += 1
+            check.violation(rule, f"{construct}/{_norm(show(red))}",
+                            f"`{unparse(e)[:70]}` reduces a batch value over all of its rows and decides {what}: the decision is taken once "
+                            "for the whole batch, so a row is processed differently depending on the other rows (row-by-row processing decides per row)",
+                            loc(fn, n), {"reduction": show(red)[:200]})
+    return bad
+
+
 def _norm(s: str) -> str:
     return "".join(s.split())[:60]
 
@@ -304,19 +359,40 @@ def run(check: Check) -> None:
             scope[f.qualname] = f
     skip_loaders = {q for q in scope if q.split(".")[-1] in ("load", "parse", "infix_to_postfix", "format_infix", "load_rules", "create", "configure",
                                                               "_parse", "update_reference", "import_from", "construct", "copy")}
-    n_fun = 0
+    n_fun = n_bad = 0
     for q in sorted(scope):
         f = scope[q]
         if f.is_abstract or q in skip_loaders:
             continue
         check.analysed(f)
         kernel_elementwise(check, f, "V1", q)
+        n_bad += cross_row_decisions(check, f, "V5", q)
         n_fun += 1
+    if not n_bad:
+        check.ok("V5", "processing-path/cross-row-decisions", f"no branch in {n_fun} functions is decided by a reduction over the rows of a batch")
+    cross_row_fixture(check)
     check.notes.append(f"V1 scope: {n_fun} functions ({len(pred)} reachable from Engine.process + registries)")
     registry(check)
     inplace_writes(check, scope)
     input_values(check)
     fill_forward(check)
+
+
+def cross_row_fixture(check: Check) -> None:
+    """Positive example for V5 (expected count on the tree is zero): the rule must fire on the fixture."""
+    import os
+
+    from ..report import VERIF
+
+    path = os.path.join(VERIF, "selftest", "fixtures", "c02_cross_row.py")
+    with open(path, encoding="utf-8") as fh:
+        src = fh.read()
+    p2 = Program(check.program.root, check.program.package, {**check.program.overrides, "fuzzylite/_verif_fixture_c02.py": src})
+    probe = Check("C02", p2)
+    hits = sum(cross_row_decisions(probe, f, "V5", q) for q, f in p2.functions.items() if f.file.endswith("_verif_fixture_c02.py"))
+    if hits != 2:
+        raise AnalysisError(f"positive fixture for V5 matched {hits} construct(s), expected 2 (and the masked-store twin must stay silent)")
+    check.ok("V5", "fixture/cross-row", "positive fixture: 2 cross-row decisions reported, the masked-store twin is silent")
 
 
 def registry(check: Check) -> None:
@@ -422,16 +498,97 @@ def input_values(check: Check) -> None:
         len(vv[2][1]) == 2 and vv[2][1][0][0] == "slice" and vv[2][1][1][0] == "index" and is_path(iter_base(vv[2][1][1][1])[0], "self.input_variables")
     check.require(col_ok, "V3", "Engine.input_values.setter/columns", "input variable i receives column i (all rows)" if col_ok else
                   f"assignment is {show(tv)}.value = {show(vv)}", loc(setter, n))
-    # 1-d handling: a vector is a row of per-variable values, or a column when there is a single input variable
-    src = unparse(setter.node)
-    one_d = "np.atleast_2d(values)" in src and "values.T" in src
-    tr = [m for m in cfg.stmt_nodes() if isinstance(m.ast, ast.Assign) and unparse(m.ast.value).endswith(".T")]
-    tr_ok = bool(tr) and any(pol and classify(r.term(g, gn), None) == "single_input" for g, pol, gn in cfg.must_guards(tr[0]))
-    check.require(tr_ok, "V3", "Engine.input_values.setter/vector", "a vector is one row of values, or one column when the engine has a single input", loc(setter))
-    # 0-d: the scalar is broadcast to one row with one column per input
-    full = [r.term(c, m) for m, c in cfg.all_calls() if r.term(c.func, m) == ("global", "numpy.full")]
-    f_ok = bool(full) and full[0][2] and full[0][2][0][0] == "tuple" and full[0][2][0][1][0] == ("const", 1) and \
-        full[0][2][0][1][1] == ("call", ("global", "len"), (("attr", ("param", "self"), "input_variables"),), ())
+    # shapes: along every path for (number of dimensions, single input?), the matrix that is distributed has the right shape
+    from ..sym import PathResolver
+
+    def shape_of(t: Term, nd: int) -> tuple:
+        """Symbolic shape of a term: entries are 1, "n" (number of input variables), "k" (vector length), "r"/"c" (matrix)."""
+        if t == ("param", vals):
+            return {0: (), 1: ("k",), 2: ("r", "c")}[nd]
+        if t[0] == "attr" and t[2] == "T":
+            return tuple(reversed(shape_of(t[1], nd)))
+        if t[0] == "call" and t[1][0] == "attr" and t[1][2] == "transpose" and not t[2]:
+            return tuple(reversed(shape_of(t[1][1], nd)))
+        if t[0] == "call" and t[1][0] == "global":
+            g = t[1][1]
+            kw = dict(t[3])
+            if g in ("numpy.atleast_2d",) and len(t[2]) == 1:
+                sh = shape_of(t[2][0], nd)
+                return (1,) * (2 - len(sh)) + sh if len(sh) < 2 else sh
+            if g in ("numpy.transpose",) and len(t[2]) == 1:
+                return tuple(reversed(shape_of(t[2][0], nd)))
+            if g in ("numpy.full", "numpy.tile", "numpy.broadcast_to", "numpy.reshape", "numpy.zeros", "numpy.ones", "numpy.empty"):
+                sh = kw.get("shape", kw.get("reps", kw.get("newshape")))
+                if sh is None:
+                    sh = t[2][1] if g in ("numpy.tile", "numpy.broadcast_to", "numpy.reshape") and len(t[2]) > 1 else (t[2][0] if t[2] else None)
+                if sh is not None and sh[0] == "tuple":
+                    return tuple(dim_of(x) for x in sh[1])
+            if g in ("numpy.asarray", "numpy.array", "numpy.atleast_1d", "fuzzylite.operation.Operation.array", "fuzzylite.operation.Operation.scalar"):
+                return shape_of(t[2][0], nd)
+        if t[0] == "call" and t[1][0] == "attr" and t[1][2] == "reshape":
+            a = t[2][0][1] if len(t[2]) == 1 and t[2][0][0] == "tuple" else t[2]
+            base = shape_of(t[1][1], nd)
+            dims = [dim_of(x) for x in a]
+            if dims.count(-1) == 1 and len(base) == 1:
+                dims[dims.index(-1)] = base[0]
+            return tuple(dims)
+        if t[0] == "sub" and t[2][0] == "tuple":
+            base = list(shape_of(t[1], nd))
+            out = []
+            for x in t[2][1]:
+                if x in (("const", None), ("global", "numpy.newaxis")):
+                    out.append(1)
+                elif x[0] == "slice" and base:
+                    out.append(base.pop(0))
+                else:
+                    raise AnalysisError(f"Engine.input_values.setter: index `{show(x)}` not modelled in the shape interpretation")
+            return tuple(out + base)
+        if t[0] == "ifexp":
+            a, b = shape_of(t[2], nd), shape_of(t[3], nd)
+            if a == b:
+                return a
+        raise AnalysisError(f"Engine.input_values.setter: `{show(t)[:80]}` not modelled in the shape interpretation")
+
+    def dim_of(x: Term):  # type: ignore[no-untyped-def]
+        if x[0] == "const" and isinstance(x[1], int):
+            return x[1]
+        if x[0] == "unop" and x[1] == "-" and x[2] == ("const", 1):
+            return -1
+        if x == ("call", ("global", "len"), (("attr", ("param", "self"), "input_variables"),), ()):
+            return "n"
+        raise AnalysisError(f"Engine.input_values.setter: dimension `{show(x)}` not modelled in the shape interpretation")
+
+    want = {(0, False): (1, "n"), (0, True): (1, "n"), (1, False): (1, "k"), (1, True): ("k", 1), (2, False): ("r", "c"), (2, True): ("r", "c")}
+    got = {}
+    fills = set()
+    src_name = n.ast.value  # type: ignore[union-attr]
+    while isinstance(src_name, ast.Subscript):
+        src_name = src_name.value
+    for (nd, single), w in want.items():
+        ev = RoleEval(r, classify)
+        env = {"ndim": nd, "has_inputs": True, "bad_columns": False, "single_input": single}
+        shapes = set()
+        for pa in paths(cfg, first, ev, env, set()):
+            if n not in pa:
+                continue
+            pr = PathResolver(p, setter, pa)
+            t = pr.at(src_name, pr.index_of(n))
+            shapes.add(shape_of(t, nd))
+            if nd == 0:
+                for x in walk(t):
+                    if x[0] == "call" and x[1] == ("global", "numpy.full"):
+                        fv = dict(x[3]).get("fill_value", x[2][1] if len(x[2]) > 1 else None)
+                        fills.add(fv is not None and any(y == ("param", vals) for y in walk(fv)))
+        got[(nd, single)] = shapes
+    bad = {k: v for k, v in got.items() if v != {want[k]} and not (k[1] and want[k] == ("k", 1) and v == {("k", 1)})}
+    # with a single input variable n == 1, so (1, "n") and (1, 1) coincide
+    bad = {k: v for k, v in bad.items() if not (k[1] and {tuple(1 if d == "n" else d for d in sh) for sh in v} == {tuple(1 if d == "n" else d for d in want[k])})}
+    check.require(not bad, "V3", "Engine.input_values.setter/vector",
+                  "a vector is one row of values, or one column when the engine has a single input; a matrix is taken as it is "
+                  "(symbolic shapes along every path for 0/1/2 dimensions x single/multiple inputs)" if not bad else
+                  f"shape of the distributed matrix per (dimensions, single input): {({k: sorted(map(str, v)) for k, v in bad.items()})}; expected {({k: want[k] for k in bad})}",
+                  loc(setter), exhaustive=True, cases=6)
+    f_ok = not any(k[0] == 0 for k in bad) and (not fills or all(fills))
     check.require(f_ok, "V3", "Engine.input_values.setter/scalar", "a single value becomes one row holding that value for every input", loc(setter))
     # getter: column_stack of variable.value in variable order
     rg = Resolver(p, getter)
